@@ -256,3 +256,7 @@ fn select_protocol_version(version: ProtocolVersion, connect2: bool) -> Option<P
         None
     }
 }
+
+#[cfg(kani)]
+#[path = "/verif/harness/broker/acceptor.rs"]
+mod verif;
